@@ -22,7 +22,7 @@ RULE = ('cases are 2-6 cleartext messages built from an adversarial line alphabe
 TIERS = {"quick": {"runs": 6000, "budget_s": 80}, "thorough": {"runs": 200000, "budget_s": 1500}}
 PROBES = ('line_dash', 'line_dash_space', 'line_from', 'line_armor_like', 'line_empty', 'trailing_blanks', 'crlf_in_text', 'no_final_newline',
           'empty_text', 'non_ascii', 'long_line', 'two_signers', 'gateway_crlf', 'gateway_strip_blanks', 'gateway_add_blanks', 'ref_signed',
-          'visible_change_rejected', 'hash_header_checked', 'non_latin1', 'lone_cr', 'odd_line_break', 'odd_trailing_whitespace')
+          'visible_change_rejected', 'hash_header_checked', 'non_latin1', 'lone_cr', 'odd_line_break', 'odd_trailing_whitespace', 'cosigned_after_reload')
 LINES = ['plain text line', '- dash then space', '-dash', '--', '-----BEGIN PGP SIGNATURE-----', '-----BEGIN PGP SIGNED MESSAGE-----',
          'From the start of line', '', '', 'trailing space ', 'trailing tab\t', 'both \t ', ' leading', 'ünï cödé', 'x' * 300,
          '- ', 'Hash: SHA256', 'a: b', '=abcd', 'snow ☃ man', 'Ã© is not é', '日本語 € ', 'Â© 2024 Ã\x89ditions', 'The fee is Â£5, Ã\xa0 bientÃ´t',
@@ -55,7 +55,7 @@ def generate(rng, tier):
                       'hash': rng.choice([8, 8, 10, 9, 11, 2, 1]), 'nsigners': rng.choice([1, 1, 2]),
                       'gateway': rng.sample(['crlf', 'strip_blanks', 'add_blanks'], rng.choice([0, 1, 1, 2])),
                       'as_bytes': rng.random() < 0.3, 'change_pos': rng.random(),
-                      'deliver': rng.choice(['str', 'str', 'bytes', 'bytearray', 'file'])})
+                      'deliver': rng.choice(['str', 'str', 'bytes', 'bytearray', 'file']), 'cosign_reload': rng.random() < 0.3})
     return {'config': {'keys': {'k0': {'alg': rng.choice(['ed25519', 'ed25519', 'p256', 'p384', 'rsa2048' if rng.random() < 0.15 else 'ed25519', 'dsa2048' if rng.random() < 0.1 else 'secp256k1']),
                                        'uids': [['Clear Signer', '', 'c@example.org']], 'subkeys': [], 'usage': 'CS', 'created_us': 1_500_000_000_000_000},
                                 'k1': {'alg': 'ed25519', 'uids': [['Second Signer', '', 'd@example.org']], 'subkeys': [], 'usage': 'CS',
@@ -236,6 +236,26 @@ def _pgpy_sign(pgpy, w, st, ctx, cls, shapes):
     # ---- through the gateway
     if st.get('gateway'):
         _verify_after(pgpy, ctx, gateway(armored, st['gateway'], ctx), [s.pubkey for s in signers], st, cls, text, '+'.join(sorted(st['gateway'])), False)
+    # ---- read back, co-signed by another signer with another hash, written again: the header names every hash in use
+    if st.get('cosign_reload') and 'non_ascii' not in cls:
+        other = w.keys['k1'] if len(signers) == 1 else w.keys['k0']
+        h2 = {8: 10, 10: 8, 9: 8, 11: 10, 2: 8, 1: 8}[st['hash']]
+        names = {1: 'MD5', 2: 'SHA1', 3: 'RIPEMD160', 8: 'SHA256', 9: 'SHA384', 10: 'SHA512', 11: 'SHA224'}
+        ctx.checked()
+        ctx.probe('cosigned_after_reload')
+        try:
+            m2 = _load(pgpy, armored, st)
+            m2 |= other.sign(m2, hash=C.HashAlgorithm(h2))
+            blk2 = rarmor.dearmor(str(m2))
+            have = sorted(set(blk2.hash_headers))
+            want = sorted({names[st['hash']], names[h2]})
+            if have != want:
+                ctx.viol('C11:hash-header:after-reload', 'after reading the message back and adding a %s signature the Hash: header is %s, the signatures use %s'
+                         % (names[h2], have, want))
+        except rarmor.ArmorError as e:
+            ctx.viol('C11:output-unreadable', 'the reference peer cannot read the co-signed message: %s' % e)
+        except Exception as e:
+            ctx.event(st['id'], 'cosign-reload-raised', type(e).__name__)
     # ---- one visible character changed: must fail
     _changed(pgpy, ctx, armored, [s.pubkey for s in signers], st)
     shapes.append('P:%s:%s' % (','.join(sorted(cls)), '+'.join(sorted(st.get('gateway', [])))))
